@@ -236,6 +236,12 @@ func (s *StructType) IsValidExpression(exp Exp, pipeline *Pipeline, ast *Ast) er
 				}
 			}
 		}
+		if len(errs) == 0 && exp.Kind == KindMap {
+			// The value of a struct may be written with quoted keys.  It is
+			// a struct all the same: a path into it selects a member, rather
+			// than projecting through the values as it would for a typed map.
+			exp.Kind = KindStruct
+		}
 		return errs.If()
 	default:
 		return &IncompatibleTypeError{
